@@ -459,8 +459,11 @@ func vRTFilter(name string, idx int, ops []string) rule.FilterSpec {
 			rhs = []string{"/etc", "/", "/etc/"}[vChoose(tag+"dir", 3)]
 		} else if name == "path" && vParam("realpath", 0) != 0 {
 			rhs = "/etc/passwd"
-		} else {
+		} else if name == "path" || name == "exe" || vParam("anyfirst", 0) == 0 {
 			rhs = "/" + vPlain(tag, vLen(tag+"len", vParam("strmax", 2)))
+		} else {
+			// label-like values: any plain first byte (also one that looks like part of an operator)
+			rhs = vPlain(tag, 1+vLen(tag+"len", vParam("strmax", 2)))
 		}
 	case "perm":
 		bits := 1 + vChoose(tag+"perm", 15)
